@@ -279,6 +279,23 @@ Definition suite_spec_list (args : list sx) : sx :=
   | _ => bad
   end.
 
+(* C02 oracle: is the value rule-shaped; for a text, is it a sentence of the language
+   (by parser completeness and soundness: exactly when parse_tokens succeeds) *)
+Definition suite_spec_c02 (args : list sx) : sx :=
+  match args with
+  | [ex; v] =>
+      match dextra ex, djv v with
+      | Some ex', Some v' =>
+          let shaped := match v' with JStr _ => true | JList l => rule_shaped_list l | _ => false end in
+          let sent := match v' with
+                      | JStr [] => true
+                      | JStr x => match parse_tokens (tokenize ex' x) with Some _ => true | None => false end
+                      | _ => false end in
+          L [sx_of_bool shaped; sx_of_bool sent]
+      | _, _ => bad end
+  | _ => bad
+  end.
+
 Definition wire_main (x : sx) : sx :=
   match x with
   | L (A 1 :: args) => suite_tokenize args
@@ -287,5 +304,6 @@ Definition wire_main (x : sx) : sx :=
   | L (A 4 :: args) => suite_enforce args
   | L (A 5 :: args) => suite_spec_c01 args
   | L (A 6 :: args) => suite_spec_list args
+  | L (A 7 :: args) => suite_spec_c02 args
   | _ => sx_err 1
   end.
